@@ -129,3 +129,89 @@ def input_method_term(facts, fn, wrapped_field='input'):
                 ev.extra_inputs.append(('field', ('self',), i, fld['name']))
     v, t = ev.ev(fn['thir'], ctx)
     return t, v, ev
+
+
+# ------------------------------------------------------------------------------------------
+# small expression interpreter over symbolic values (used to decide guards semantically rather
+# than by spelling: `x > 63`, `x >= 64`, `!(x < 64)` are the same function)
+
+def eval_expr(v, leaf):
+    """evaluate a symbolic value to an int/bool; `leaf(v)` supplies values of atoms (or None)"""
+    v = strip(v)
+    if not isinstance(v, tuple):
+        return None
+    r = leaf(v)
+    if r is not None:
+        return r
+    k = v[0]
+    if k == 'lit' and isinstance(v[1], (int, bool)):
+        return v[1]
+    if k == 'const' and v[2] is not None:
+        return v[2]
+    if k == 'un' and v[1] == 'Not':
+        a = eval_expr(v[2], leaf)
+        return None if a is None else ((not a) if isinstance(a, bool) else None)
+    if k == 'cast':
+        a = eval_expr(v[2], leaf)
+        if a is None:
+            return None
+        bits = {'u8': 8, 'u16': 16, 'u32': 32, 'u64': 64, 'u128': 128, 'usize': 64}.get(v[1])
+        if bits and isinstance(a, int) and not isinstance(a, bool):
+            return a % (1 << bits)
+        return int(a) if isinstance(a, bool) else None
+    if k == 'conv':
+        return eval_expr(v[1], leaf)
+    if k == 'bin':
+        a, b = eval_expr(v[2], leaf), eval_expr(v[3], leaf)
+        if a is None or b is None:
+            return None
+        try:
+            return {'Eq': lambda: a == b, 'Ne': lambda: a != b, 'Lt': lambda: a < b, 'Le': lambda: a <= b,
+                    'Gt': lambda: a > b, 'Ge': lambda: a >= b, 'And': lambda: bool(a) and bool(b),
+                    'Or': lambda: bool(a) or bool(b), 'Add': lambda: a + b, 'Sub': lambda: a - b,
+                    'Mul': lambda: a * b, 'Div': lambda: a // b if b else None, 'Rem': lambda: a % b if b else None,
+                    'Shl': lambda: a << b, 'Shr': lambda: a >> b, 'BitOr': lambda: a | b, 'BitAnd': lambda: a & b,
+                    }[v[1]]()
+        except KeyError:
+            return None
+    if k == 'call' and v[1] in ('saturating_add', 'wrapping_add', 'saturating_sub', 'min', 'max'):
+        a, b = eval_expr(v[3][0], leaf), eval_expr(v[3][1], leaf)
+        if a is None or b is None:
+            return None
+        return {'saturating_add': a + b, 'wrapping_add': a + b, 'saturating_sub': max(a - b, 0), 'min': min(a, b), 'max': max(a, b)}[v[1]]
+    return None
+
+
+def abstract_helpers(t, names):
+    """replace HELPER sub-terms of the named crate-local functions by a single ['KERNEL', name]
+    event (the function is then analysed on its own)"""
+    k = t[0]
+    if k == 'HELPER':
+        if t[1] in names:
+            return ['KERNEL', t[1]]
+        return ['HELPER', t[1], abstract_helpers(t[2], names)]
+    if k == 'cat':
+        return ['cat', [abstract_helpers(x, names) for x in t[1]]]
+    if k == 'alt':
+        return ['alt', t[1], [(d, abstract_helpers(x, names)) for d, x in t[2]]]
+    if k == 'star':
+        return ['star', t[1], abstract_helpers(t[2], names)]
+    if k == 'ONOK':
+        return ['ONOK', abstract_helpers(t[1], names)]
+    return t
+
+
+def decoder_fns(facts):
+    """(fn, kind) for every decoding entry point and helper of the crate: methods of Decode /
+    WrapperTypeDecode impls and defaults, plus crate-local free functions that take an Input"""
+    out = []
+    for f in facts.fns:
+        if not f.get('thir') or f['kind'] not in ('Fn', 'AssocFn'):
+            continue
+        tr = tname(f['trait']) if f.get('trait') else None
+        if f['ctx'] in ('trait_impl', 'trait_default') and tr in ('Decode', 'WrapperTypeDecode') and f['method'] in (
+                'decode', 'decode_into', 'skip', 'decode_wrapped'):
+            out.append((f, 'method'))
+        elif f['ctx'] == 'free' and any(p.endswith(': codec::Input') for p in f.get('preds', [])):
+            out.append((f, 'helper'))
+    return out
